@@ -2,9 +2,12 @@ import Compass.Drv.Proto
 import Compass.Model.Cost
 
 /-!
-C07 driver.  Case line:
+C07 driver.  Two kinds of case line:
 
-  `<agg> <features> <prev> <next> <edge> <prevEdge> <nextEdge>`
+  `api <agg> <features> <prev> <next> <edge> <prevEdge> <nextEdge>`   (through `CostModel::new`)
+  `ops <agg> <indices> <weights> <vehicle rates> <network rates> <prev> <next> <edge> <prevEdge> <nextEdge>`
+      (the three `cost_ops::calculate_*` functions on arbitrary index lists and vector lengths;
+       output `ops <vehicle> <network traversal> <network access>`, each a bit pattern or `err`)
 
 * `agg`      `sum` | `mul`
 * `features` `n` then `n` triples `<opt weight> <opt vehicle rate> <opt network rate>`, one per state
@@ -61,7 +64,25 @@ def fopt : Option Float → String
   | some x => floatOut x
   | none => "err"
 
-def case : P String := do
+def opsCase : P String := do
+  let fuel := (← get).length + 1
+  let agg ← aggP
+  let indices ← listOf nat
+  let weights ← listOf float
+  let vrates ← listOf (vrate fuel)
+  let nrates ← listOf (nrate fuel)
+  let prev ← listOf float
+  let nxt ← listOf float
+  let e ← nat
+  let pe ← nat
+  let ne ← nat
+  endOfLine
+  let m : CostModel Float :=
+    { indices := indices, weights := weights, vehicleRates := vrates, networkRates := nrates, agg := agg }
+  pure (joinSp ["ops", fopt (m.vehicleCosts prev nxt), fopt (m.networkTraversalCosts prev nxt e),
+    fopt (m.networkAccessCosts prev nxt pe ne)])
+
+def apiCase : P String := do
   let fuel := (← get).length + 1
   let agg ← aggP
   let feats ← listOf (do
@@ -98,6 +119,13 @@ def case : P String := do
     pure (joinSp ["ok", fopt t, fopt a, fopt est,
       fopt (withPrev.map (·.1)), fopt (withPrev.map (·.2)),
       fopt (noPrev.map (·.1)), fopt (noPrev.map (·.2))])
+
+def case : P String := do
+  let kind ← next
+  match kind with
+  | "api" => apiCase
+  | "ops" => opsCase
+  | _ => failure
 
 def run (line : String) : String := Proto.run case line
 
